@@ -7,6 +7,7 @@ import (
 	"sort"
 	"strings"
 	"sync"
+	"sync/atomic"
 	"time"
 
 	"golang.org/x/tools/go/ssa"
@@ -43,6 +44,14 @@ type Results struct {
 	Wall         time.Duration
 	Truncated    bool
 	UsedStrings  bool
+	Conform      []conformSample
+}
+
+// conformSample is one completed path with a concrete input following it; the
+// native run of the harness on that input must meet the same labels in order.
+type conformSample struct {
+	Model  map[string]string
+	Labels []string
 }
 
 type Explorer struct {
@@ -54,6 +63,8 @@ type Explorer struct {
 	mapPerm  bool
 	exactFloat bool
 	unwind   int
+	conformK int
+	nDone    int64
 
 	mu     sync.Mutex
 	cond   *sync.Cond
@@ -185,7 +196,31 @@ func (ex *Explorer) runPath(sol *Solver, prefix []decision) (p *Path, status, ms
 	}()
 	root := &frame{p: p, fn: ex.entry}
 	callSSA(root, token.NoPos, ex.entry, nil, nil)
+	if ex.conformK > 0 {
+		n := atomic.AddInt64(&ex.nDone, 1)
+		if isSampleOrdinal(n) {
+			clean := true
+			for _, a := range p.asserts {
+				if a.Status != "discharged" {
+					clean = false
+				}
+			}
+			if clean && p.sol.Check(nil) == Sat {
+				p.conform = &conformSample{Model: p.model(), Labels: append([]string(nil), p.labels...)}
+			}
+			p.sol.Done()
+		}
+	}
 	return
+}
+
+// isSampleOrdinal spreads samples over the exploration order: 1,2,3,5,8,13,…
+func isSampleOrdinal(n int64) bool {
+	a, b := int64(1), int64(2)
+	for a < n {
+		a, b = b, a+b
+	}
+	return a == n
 }
 
 func (ex *Explorer) merge(p *Path, status, msg string) {
@@ -247,6 +282,9 @@ func (ex *Explorer) merge(p *Path, status, msg string) {
 	}
 	for _, n := range p.notes {
 		r.Notes[n]++
+	}
+	if p.conform != nil && len(r.Conform) < ex.conformK {
+		r.Conform = append(r.Conform, *p.conform)
 	}
 	if len(r.SamplePaths) < 5 && status == "completed" {
 		r.SamplePaths = append(r.SamplePaths, strings.Join(p.trace(), ""))
